@@ -7,7 +7,7 @@ for d in /verif/seeded/*/; do
   n=$(basename $d)
   prop=$(python3 -c "import json;print(json.load(open('$d/meta.json'))['property'])")
   ids="$prop"
-  case $n in C02-m2-*) ids="C16";; esac
+  case $n in C02-m2-*|C03-r2m2-*) ids="C16";; esac
   cd /repo; (git apply -3 $d/patch.diff 2>/dev/null || git apply $d/patch.diff) || { echo "$n: PATCH-DOES-NOT-APPLY"; git checkout -q -- .; continue; }
   git reset -q
   res=MISSED
